@@ -127,6 +127,8 @@ def strategies(tier: str) -> list[Any]:
         for j in (0.0, 1.0):
             out.append(("exp_jitter", 1.0, b, 8.0, j))
     out += [("rand_exp", 1.0, 2.0, 8.0, 0.0), ("rand_exp", 1.0, 2.0, 8.0, 0.5)]
+    # a floor above the cap (e.g. min=90 with the default max=60 left untouched): documented as "the floor wins"
+    out += [("exp", 1.0, 2.0, 4.0, 6.0), ("exp", 0.5, 2.0, 1.0, 1.5), ("rand_exp", 1.0, 2.0, 4.0, 6.0)]
     # a base so large that the exponential term leaves the float range within a few retries (documented: it saturates)
     out += [("exp", 1.0, 1e155, 0.75, 0.0), ("exp", 2.0, 1e200, 1.5, 0.25), ("exp_jitter", 1.0, 1e155, 0.75, 0.0)]
     fx = [("fixed", 5), ("fixed", 1), ("fixed", 3)]
